@@ -210,3 +210,17 @@ Theorem C03_example_outcomes :
   end.
 Proof. exact example_outcomes. Qed.
 Print Assumptions C03_example_outcomes.
+
+(* keywords are a dictionary: a history that re-states keywords (existing ones, ones appended earlier, upper-case twins)
+   is inside the domain; a re-stated key keeps its place and takes the last value, in the object and in the specification *)
+Theorem C03_example_repeated_keys :
+  in_domain ex_case2 = true /\
+  d_pairs (spec_doc ex_doc ex_ops2) = [(bs "k"%string, bs "last"%string); (bs "K"%string, bs "again"%string)] /\
+  match init_state ex_doc (bs "f.par"%string) false with
+  | Some s => outcomes s ex_ops2 = [Ok; Ok; Ok; Ok; Ok] /\
+              let '(fs, o) := run s ex_ops2 in
+              pd_pairs (o_state o) = [(bs "k"%string, bs "last"%string); (bs "K"%string, bs "again"%string)]
+  | None => False
+  end.
+Proof. exact example_repeated_keys. Qed.
+Print Assumptions C03_example_repeated_keys.
